@@ -317,6 +317,9 @@ def run(chk, repo):
     from rules.shared import memo_params
     chk.clauses.append('C11.k no look-up of the annotation is served from a cache keyed by a lossy projection of its arguments')
     memo_params(chk, repo, 'C11.k', ['gtf.GenomicAnnotation:GenomicAnnotation.', 'gtf.GenomicAnnotationOnDisk:GenomicAnnotationOnDisk.', 'gtf.TranscriptAnnotationModel:', 'gtf.GTFPointer:'], floor=0)
+    from rules.shared import kwname
+    chk.clauses.append('C11.kw (shared R-THREAD) parameters handed on as keyword arguments keep their name: no `a=b` between two parameters of one function')
+    kwname(chk, repo, 'C11.kw', ['gtf', 'dna'], floor=0)
 
 def exon_loop_inverse(chk, repo, rid):
     """E8: per-iteration affine summaries of the two exon loops, decided over cone domains (see sa/loops.py)"""
